@@ -271,7 +271,140 @@ brk('c16_timestamp_sub_panics', 'C16 C15', OBJ, '''            (Value::Timestamp
                 .checked_sub_signed(r)
                 .ok_or(ExecutionError::IntegerOverflow("sub", l.into(), r.into()))
                 .map(Value::Timestamp),''', '''            (Value::Timestamp(l), Value::Duration(r)) => Value::Timestamp(l - r).into(),''')
-brk('c16_day_of_year_one_based', 'C16', FUN, '''        Ok(this.signed_duration_since(year).num_days().into())''', '''        Ok((this.signed_duration_since(year).num_days() + 1).into())''')
+brk('c16_day_of_year_one_based', 'C16', FUN, '''        Ok((this.ordinal0() as i32).into())''', '''        Ok((this.ordinal() as i32).into())''')
+# ---- C17
+SERF = 'interpreter/src/ser.rs'
+brk('c17_u32_becomes_int', 'C17', SERF, '''    fn serialize_u32(self, v: u32) -> Result<Value> {
+        self.serialize_u64(u64::from(v))
+    }
+
+    fn serialize_u64(self, v: u64) -> Result<Value> {
+        Ok(Value::UInt(v))''', '''    fn serialize_u32(self, v: u32) -> Result<Value> {
+        self.serialize_i64(i64::from(v))
+    }
+
+    fn serialize_u64(self, v: u64) -> Result<Value> {
+        Ok(Value::UInt(v))''')
+brk('c17_u64_wraps_to_int', 'C17', SERF, '''    fn serialize_u64(self, v: u64) -> Result<Value> {
+        Ok(Value::UInt(v))''', '''    fn serialize_u64(self, v: u64) -> Result<Value> {
+        Ok(Value::Int(v as i64))''')
+brk('c17_unit_variant_is_null', 'C17', SERF, '''        variant: &'static str,
+    ) -> Result<Value> {
+        self.serialize_str(variant)
+    }
+
+    fn serialize_newtype_struct<T>(self, name: &'static str, value: &T) -> Result<Value>''', '''        variant: &'static str,
+    ) -> Result<Value> {
+        let _ = variant;
+        self.serialize_unit()
+    }
+
+    fn serialize_newtype_struct<T>(self, name: &'static str, value: &T) -> Result<Value>''')
+brk('c17_struct_variant_flattened', 'C17', SERF, '''        let map: HashMap<String, Value> = HashMap::from_iter([(self.name, self.map.into())]);
+        Ok(map.into())''', '''        let _ = self.name;
+        Ok(self.map.into())''')
+brk('c17_map_values_through_key_serializer', 'C17', SERF, '''                )
+            })?,
+            value.serialize(Serializer)?,
+        );''', '''                )
+            })?,
+            Value::from(&value.serialize(KeySerializer)?),
+        );''')
+brk('c17_float_keys_truncated', 'C17', SERF, '''    fn serialize_f64(self, _v: f64) -> Result<Key> {
+        Err(SerializationError::InvalidKey(
+            "Float is not supported".to_string(),
+        ))
+    }''', '''    fn serialize_f64(self, _v: f64) -> Result<Key> {
+        Ok(Key::Int(_v as i64))
+    }''')
+brk('c17_time_payload_unreachable_again', 'C17', SERF, '''    fn serialize_map(self, _len: Option<usize>) -> Result<Self::SerializeMap> {
+        unexpected_time_payload()
+    }''', '''    fn serialize_map(self, _len: Option<usize>) -> Result<Self::SerializeMap> {
+        unreachable!()
+    }''')
+brk('c17_duration_nanos_lossy', 'C17', SERF, '''                s.serialize_field(Duration::NANOS_FIELD, &self.0.subsec_nanos())?;''', '''                s.serialize_field(Duration::NANOS_FIELD, &(self.0.num_milliseconds() % 1000 * 1_000_000))?;''')
+neu('c17_i8_widening_cast', 'C17', SERF, '''    fn serialize_i8(self, v: i8) -> Result<Value> {
+        self.serialize_i64(i64::from(v))''', '''    fn serialize_i8(self, v: i8) -> Result<Value> {
+        self.serialize_i64(v as i64)''')
+neu('c17_none_direct', 'C17', SERF, '''    fn serialize_none(self) -> Result<Value> {
+        self.serialize_unit()
+    }
+
+    fn serialize_some<T>(self, value: &T) -> Result<Value>''', '''    fn serialize_none(self) -> Result<Value> {
+        Ok(Value::Null)
+    }
+
+    fn serialize_some<T>(self, value: &T) -> Result<Value>''')
+# ---- C18
+JSF = 'interpreter/src/json.rs'
+brk('c18_bytes_lossy_utf8', 'C18', JSF, '''            Value::Bytes(ref b) => BASE64_STANDARD.encode(b.as_slice()).to_string().into(),''', '''            Value::Bytes(ref b) => String::from_utf8_lossy(b.as_slice()).to_string().into(),''')
+brk('c18_duration_millis', 'C18', JSF, '''                v.num_nanoseconds()
+                    .ok_or(ConvertToJsonError::DurationOverflow(v))?,''', '''                v.num_milliseconds(),''')
+brk('c18_nested_failure_swallowed', 'C18', JSF, '''                    obj.insert(k.to_string(), v.json()?);''', '''                    obj.insert(k.to_string(), v.json().unwrap_or(serde_json::Value::Null));''')
+brk('c18_function_is_null', 'C18', JSF, '''            _ => return Err(ConvertToJsonError::Value(self)),''', '''            Value::Function(..) => serde_json::Value::Null,
+            #[allow(unreachable_patterns)]
+            _ => return Err(ConvertToJsonError::Value(self)),''')
+brk('c18_int_via_float', 'C18', JSF, '''            Value::Int(i) => i.into(),''', '''            Value::Int(i) => (i as f64).into(),''')
+brk('c18_list_drops_failures', 'C18', JSF, '''                vec.iter()
+                    .map(|v| v.json())
+                    .collect::<Result<Vec<_>, _>>()?,''', '''                vec.iter().filter_map(|v| v.json().ok()).collect::<Vec<_>>(),''')
+brk('c18_duration_overflow_panics', 'C18', JSF, '''                v.num_nanoseconds()
+                    .ok_or(ConvertToJsonError::DurationOverflow(v))?,''', '''                v.num_nanoseconds().expect("duration fits"),''')
+# ---- C02
+brk('c02_new_unwrap_in_builtin', 'C02', FUN, '''pub fn bytes(value: Arc<String>) -> Result<Value> {
+    Ok(Value::Bytes(value.as_bytes().to_vec().into()))''', '''pub fn bytes(value: Arc<String>) -> Result<Value> {
+    let _first = value.chars().next().unwrap();
+    Ok(Value::Bytes(value.as_bytes().to_vec().into()))''')
+brk('c02_args_index_without_len_guard', 'C02', FUN, '''    let items = if args.len() == 1 {
+        match &args[0] {
+            Value::List(values) => values,
+            _ => return Ok(args[0].clone()),
+        }
+    } else {
+        &args
+    };
+
+    items
+        .iter()
+        .skip(1)
+        .try_fold(items.first().unwrap_or(&Value::Null), |acc, x| {
+            match acc.partial_cmp(x) {
+                Some(Ordering::Less) => Ok(acc),''', '''    let items = if args.len() <= 1 {
+        match &args[0] {
+            Value::List(values) => values,
+            _ => return Ok(args[0].clone()),
+        }
+    } else {
+        &args
+    };
+
+    items
+        .iter()
+        .skip(1)
+        .try_fold(items.first().unwrap_or(&Value::Null), |acc, x| {
+            match acc.partial_cmp(x) {
+                Some(Ordering::Less) => Ok(acc),''')
+brk('c02_contains_guard_removed', 'C02', FUN, '''                s.is_empty() || b.windows(s.len()).any(|w| w == s)''', '''                b.windows(s.len()).any(|w| w == s)''')
+brk('c02_string_index_plus_one', 'C02', OBJ, '''                                    match start
+                                        .checked_add(1)
+                                        .and_then(|end| str.get(start..end))
+                                    {''', '''                                    match str.get(start..start + 1) {''')
+neu('c02_helper_extracted', 'C02', DURF, '''fn format_int(buf: &mut [u8], mut v: u128) -> usize {
+    let mut w = buf.len();
+    if v == 0 {
+        w -= 1;
+        buf[w] = b'0';
+    } else {''', '''fn put_zero(buf: &mut [u8], mut w: usize) -> usize {
+    w -= 1;
+    buf[w] = b'0';
+    w
+}
+
+fn format_int(buf: &mut [u8], mut v: u128) -> usize {
+    let mut w = buf.len();
+    if v == 0 {
+        w = put_zero(buf, w);
+    } else {''')
 # ---- C19
 brk('c19_skip_loop_step', 'C19', REF, '''                comp.loop_step._references(variables, functions);
 ''', '')
